@@ -275,7 +275,7 @@ def run_case(case, ctx):
         rng = gen.rng_for(case["seed"])
         kw = draw_params(rng)
         pairs = gen_pairs(rng, int(rng.integers(120, 320)))
-    det = LinearFourRates(**kw)
+    det = LinearFourRates(**gen.maybe_numpy(kw, case, ctx))
     model = LFRModel(kw)
     r = drive(det, model, pairs, kw, ctx, case)
     if r is None:
